@@ -430,6 +430,10 @@ Record btx := {
   tx_outs : list (N * N)
 }.
 
+(* `list.get(n as usize)`; the index is never turned into a unary number unless it is in range *)
+Definition nth_N {A} (l : list A) (n : N) : option A :=
+  if len l <=? n then None else nth_error l (N.to_nat n).
+
 Definition is_coinbase (t : btx) : bool :=
   match tx_ins t with [(_, _, true)] => true | _ => false end.
 
@@ -451,7 +455,7 @@ Section Btc.
         match get_tx ptx with
         | None => inl (PcErr E_VIN_TX)
         | Some p =>
-            match nth_error (tx_outs p) (N.to_nat pvout) with
+            match nth_N (tx_outs p) pvout with
             | None => inl (PcErr E_VIN_VOUT)
             | Some (v, _) => details_vins rest (pvout :: vouts) (v :: vals)
             end
@@ -519,7 +523,7 @@ Section Btc.
         match get_tx ptx with
         | None => Ok (PcErr E_VIN_TX)
         | Some p =>
-            match nth_error (tx_outs p) (N.to_nat pvout) with
+            match nth_N (tx_outs p) pvout with
             | None => Ok (PcErr E_VIN_VOUT)
             | Some (cv, _) =>
                 match sat_add fx m tvin cv with
@@ -561,7 +565,7 @@ Section Btc.
                     if is_coinbase t then Ok (PcErr E_COINBASE) else
                     if len (tx_ins t) =? 0 then Ok (PcErr E_NO_VIN) else
                     if len (tx_outs t) <? vout then Ok (PcErr E_VOUT_OOB) else
-                    match nth_error (tx_outs t) (N.to_nat vout) with
+                    match nth_N (tx_outs t) vout with
                     | None => Ok (PcErr E_INVALID)
                     | Some (value, _) =>
                         if value <? sat then Ok (PcErr E_SAT_OOB) else
